@@ -25,6 +25,8 @@ pub enum Dev {
     U(PtOp),
     W(PtOp),
     WrongKey(usize),
+    /// u and w both replaced by the identity (the pairing equation is then trivially satisfied)
+    BothIdentity,
     /// keys algebraically related to the right one: 0 = -sk, 1 = sk+1, 2 = 2 sk, 3 = sk-1
     RelatedKey(u8),
 }
@@ -164,6 +166,7 @@ impl<C: Suite> Model for M11<C> {
                 a.push(Dev::U(op));
                 a.push(Dev::W(op));
             }
+            a.push(Dev::BothIdentity);
             for j in 2..5 {
                 a.push(Dev::WrongKey(j));
             }
@@ -264,6 +267,11 @@ impl<C: Suite> Model for M11<C> {
                         PtOp::OtherHonest => *self.sks[2].sign(lib_scheme(st.s), b"x").unwrap().as_raw_value(),
                         PtOp::Identity => SgP::<C>::identity(),
                     }
+                }
+                Dev::BothIdentity => {
+                    let c = ct.as_mut().unwrap();
+                    c.u = PkP::<C>::identity();
+                    c.w = SgP::<C>::identity();
                 }
                 Dev::WrongKey(j) => dsk = self.sks[j].clone(),
                 Dev::RelatedKey(r) => {
